@@ -16,6 +16,7 @@ import numpy as np
 from . import core, gens
 
 ENGINES = ["Naive", "SLOS", "SLAP", "MPS", "Stepper"]
+EVOLVE_ATOL = 5e-6   # StateVector container precision (components below 1e-6 are dropped, then renormalised)
 
 
 def gen_circuit_spec(rng, m, depth, two_mode_only):
@@ -179,7 +180,9 @@ def compare(engine, obs, states, table, masked_rows, masks):
             # a StateVector is a normalised object: with a mask the kept amplitudes are renormalised
             norm = math.sqrt(sum(kept_prob)) or 1.0
             for t, a in zip(kept_states, [x / norm for x in kept_amp]):
-                if not core.close(ev.get(tuple(t), 0j), a):
+                # a StateVector drops components below its own cut-off (1e-6) and renormalises, and the
+                # step-by-step simulator does so after every component: absolute tolerance EVOLVE_ATOL
+                if not (core.close(ev.get(tuple(t), 0j), a) or abs(ev.get(tuple(t), 0j) - a) <= EVOLVE_ATOL):
                     bad.append(("evolve", f"{engine}.evolve() amplitude of {list(t)} for input {s} = "
                                 f"{ev.get(tuple(t), 0j):.6g}, expected {a:.6g}", {"s": s, "t": list(t)}))
                     break
@@ -277,12 +280,15 @@ def run(chk: core.Check):
                 "(all inputs x all outputs, bunched included) plus bulk methods, with and without masks; distinct = "
                 "distinct (engine, m, n, circuit signature, masks); non-trivial = circuit has >= 2 components and n >= 2")
     chk.assumptions = ["the circuit's matrix is the one compute_unitary() reports (C01/C14 cover it)",
+                       "StateVector results (evolve) are compared with absolute tolerance 5e-6: the container drops "
+                       "components below 1e-6 and renormalises (after every component in the step-by-step simulator); "
+                       "amplitudes and probabilities from prob_amplitude/probability/prob_distribution/all_prob use 1e-9",
                        "native kernels of exqalibur are external: the model for them is the specification itself"]
     chk.required_branches = ["mask", "mask-drops-states", "bunched-input", "reused-instance", "stepper-perm-not-involution", "engine:Naive", "engine:SLOS",
                              "engine:SLAP", "engine:MPS", "engine:Stepper"]
     chk.lean = core.LeanDriver("C02")
     rng = chk.rng
-    n_circ = chk.pick(10, 60)
+    n_circ = chk.pick(10, 26)
     sizes = chk.pick([(2, 2), (2, 3), (3, 2), (3, 3), (4, 2), (4, 3), (3, 1), (3, 0)],
                      [(2, 2), (2, 4), (3, 2), (3, 3), (3, 5), (4, 2), (4, 3), (4, 4), (5, 2), (5, 3), (6, 2), (3, 1), (4, 0)])
     for spec_case in load_corpus():
@@ -306,7 +312,7 @@ def run(chk: core.Check):
     # long-lived engine objects: one instance per engine serves circuits of changing size and photon number, with
     # inputs re-submitted out of order (the amplitudes must not depend on what the object served before)
     history = []
-    for i in range(chk.pick(8, 40)):
+    for i in range(chk.pick(8, 24)):
         m, n = rng.choice([(2, 1), (2, 2), (3, 1), (3, 2), (3, 3), (4, 2), (2, 3), (4, 1)])
         for engine in ENGINES:
             spec = gen_circuit_spec(rng, m, rng.randint(1, 5), engine == "MPS")
